@@ -62,6 +62,7 @@ Inductive lbl :=
 | LTimeout (e : evt) | LConnRead (b : bool) | LClear (e : evt) | LPop | LAppend (item : pv)
 | LSet (e : evt) | LConnWrite (b : bool) | LNs (b : bool) | LSend (ok : bool)
 | LRet (v : pv) | LRaise (e : exn) | LSent
+| LDone               (* the handler invocation / Client step of a producer has returned *)
 | LOther (n : nat).   (* an access the model does not know; never produced by the model *)
 
 Record st := mkSt {
@@ -157,14 +158,15 @@ Definition phop (v : variant) (s : st) (cp : cpc) (p : ptask) : option (st * cpc
     let done := mkP 0 rest in
     match h, ppc p with
     | HEvent e args, 0 => let it := PList (e :: args) in Some (append_item s it, cp, next, [LAppend it])
-    | HEvent _ _, _ => Some (set_flag IE s, notify IE cp, done, [LSet IE])
+    | HEvent _ _, _ => Some (set_flag IE s, notify IE cp, done, [LSet IE; LDone])
     | HConnect, 0 => Some (set_conn s true, cp, next, [LConnWrite true])
-    | HConnect, _ => Some (set_flag CE s, notify CE cp, done, [LSet CE])
-    | HDisconnect, _ => Some (set_cev s false, cp, done, [LClear CE])
+    | HConnect, _ => Some (set_flag CE s, notify CE cp, done, [LSet CE; LDone])
+    | HDisconnect, _ => Some (set_cev s false, cp, done, [LClear CE; LDone])
     | HFinal, 0 => Some (set_ended (set_conn s false), cp, next, [LConnWrite false])
-    | HFinal, 1 => Some (set_flag CE s, notify CE cp, if final_wakes_input v then next else done, [LSet CE])
-    | HFinal, _ => Some (set_flag IE s, notify IE cp, done, [LSet IE])
-    | NsSet b, _ => Some (set_nsup s b, cp, done, [LNs b])
+    | HFinal, 1 => Some (set_flag CE s, notify CE cp, if final_wakes_input v then next else done,
+                         if final_wakes_input v then [LSet CE] else [LSet CE; LDone])
+    | HFinal, _ => Some (set_flag IE s, notify IE cp, done, [LSet IE; LDone])
+    | NsSet b, _ => Some (set_nsup s b, cp, done, [LNs b; LDone])
     end
   end.
 
